@@ -666,7 +666,9 @@ func c03RouteMatchers(w *World, r *Report, pa *pipelineAnchors, fa *factoryAncho
 				continue
 			}
 			r.Analysed(w.FnName(m))
-			mc := findCalls(m, func(c *ssa.CallCommon) bool { return c.IsInvoke() && c.Method.Name() == "Matches" && types.Identical(c.Value.Type(), rmI) })
+			mc := findCalls(m, func(c *ssa.CallCommon) bool {
+				return c.IsInvoke() && c.Method.Name() == "Matches" && types.Identical(c.Value.Type(), rmI)
+			})
 			ok := len(mc) == 1
 			if ok {
 				for _, ret := range returnsOf(m) {
